@@ -183,7 +183,7 @@ func (sp *mvSpec) event() map[string]any {
 
 func runMulti(c *fw.Ctx) {
 	vfams := []string{"mvnormal", "mvt", "skewnormal"}
-	c.Cases("mv.vector", c.N(720, 9000), func(cs *fw.Case) {
+	c.Cases("mv.vector", c.N(720, 6000), func(cs *fw.Case) {
 		r := cs.R
 		fam := vfams[cs.Index%3]
 		n := 1 + (cs.Index/3)%4
@@ -278,7 +278,7 @@ func runMulti(c *fw.Ctx) {
 		}
 	})
 
-	c.Cases("mv.iwishart", c.N(320, 4000), func(cs *fw.Case) {
+	c.Cases("mv.iwishart", c.N(320, 3000), func(cs *fw.Case) {
 		r := cs.R
 		n := 1 + cs.Index%4
 		sp := mvGen(r, "iwishart", n)
@@ -367,7 +367,7 @@ func runMulti(c *fw.Ctx) {
 		}
 	})
 
-	c.Cases("mv.niw", c.N(240, 3000), func(cs *fw.Case) {
+	c.Cases("mv.niw", c.N(240, 2000), func(cs *fw.Case) {
 		r := cs.R
 		n := 1 + cs.Index%3
 		kappa := r.LogUniform(0.1, 10)
